@@ -27,10 +27,14 @@ VARIABLES nJ,        \* number of jobs of this run (jobs 1..nJ)
           ctxMay,    \* the context may be done (its cancellation has begun / it has a deadline)
           ctxDone,   \* the context is certainly done (its cancellation has completed)
           doomed,    \* jobs that may never start any more (C09)
+          jc,        \* [Jobs -> {1, 2}]: the context job j was enqueued with (1 = the one given to Wait;
+                     \* Enqueue takes a context per job, so a second one may be in play)
+          c2May,     \* the second context may be done
+          c2Done,    \* the second context is certainly done
           wait,      \* "open" | "called" | "returned"
           ctxAtCall, \* the context was already done when Wait was called
           res        \* result of Wait: <<"none">> | <<"nil">> | <<"ctx">> | <<"errs", seq of tokens>>
-jvars == <<nJ, N, coe, deps, cls, sub, st, ctxMay, ctxDone, doomed, wait, ctxAtCall, res>>
+jvars == <<nJ, N, coe, deps, cls, sub, st, ctxMay, ctxDone, doomed, jc, c2May, c2Done, wait, ctxAtCall, res>>
 
 RangeOf(s) == {s[i] : i \in DOMAIN s}
 DepSet(j) == RangeOf(deps[j])
@@ -41,12 +45,13 @@ ErrTokOf(j) == IF st[j] = "err" THEN <<"E", cls[j]>> ELSE <<"X", 0>>
 CTXTOK == <<"CTX", 0>>
 
 JInit == /\ sub = {} /\ st = [j \in Jobs |-> "pending"] /\ ctxMay = FALSE /\ ctxDone = FALSE /\ doomed = {}
+         /\ c2May = FALSE /\ c2Done = FALSE
          /\ wait = "open" /\ ctxAtCall = FALSE /\ res = <<"none">>
 
 \* Enqueue may only name jobs returned by earlier Enqueue calls.
 Submit(j) == /\ wait = "open" /\ j \in 1..nJ /\ j \notin sub /\ DepSet(j) \subseteq sub
              /\ sub' = sub \cup {j}
-             /\ UNCHANGED <<nJ, N, coe, deps, cls, st, ctxMay, ctxDone, doomed, wait, ctxAtCall, res>>
+             /\ UNCHANGED <<nJ, jc, N, coe, deps, cls, st, ctxMay, ctxDone, doomed, wait, ctxAtCall, res, c2May, c2Done>>
 
 \* Guards of Start, one per property, so that a trace checker can tell which one failed.
 StartG_Once(j) == j \in sub /\ st[j] = "pending"           \* C01: at most once
@@ -54,42 +59,55 @@ StartG_Deps(j) == \A d \in DepSet(j) : st[d] = "ok"         \* C01: every depend
 StartG_Conc(j) == NRun < N                                 \* C03: at most N at once
 StartG_Ctx(j)  == j \notin doomed                          \* C09: nothing starts after cancellation
 StartEff(j) == /\ st' = [st EXCEPT ![j] = "running"]
-               /\ UNCHANGED <<nJ, N, coe, deps, cls, sub, ctxMay, ctxDone, doomed, wait, ctxAtCall, res>>
+               /\ UNCHANGED <<nJ, jc, N, coe, deps, cls, sub, ctxMay, ctxDone, doomed, wait, ctxAtCall, res, c2May, c2Done>>
 Start(j) == StartG_Once(j) /\ StartG_Deps(j) /\ StartG_Conc(j) /\ StartG_Ctx(j) /\ StartEff(j)
 
 End(j, o) == /\ st[j] = "running" /\ o \in {"ok", "err", "exit"}
              /\ st' = [st EXCEPT ![j] = o]
-             /\ UNCHANGED <<nJ, N, coe, deps, cls, sub, ctxMay, ctxDone, doomed, wait, ctxAtCall, res>>
+             /\ UNCHANGED <<nJ, jc, N, coe, deps, cls, sub, ctxMay, ctxDone, doomed, wait, ctxAtCall, res, c2May, c2Done>>
 
 \* The three concrete cases of C09: at the instant the context becomes done, a job that has
 \* not started can never start if it was not submitted yet, or one of its dependencies has
 \* not finished yet, or every worker is busy.
-DoomedSet == {j \in 1..nJ : st[j] = "pending" /\
+DoomedAll == {j \in 1..nJ : st[j] = "pending" /\
                  (j \notin sub \/ (\E d \in DepSet(j) : ~Ended(d)) \/ NRun = N)}
+\* ... among the jobs enqueued with context c; a job with the other context is not affected
+DoomedFor(c) == {j \in DoomedAll : jc[j] = c}
+DoomedSet == doomed \cup DoomedFor(1)
 
 \* Cancellation has a beginning (cancel() is called, or a deadline was set: from here on the
 \* context may be seen done) and an end (cancel() has returned / Done() was observed closed:
 \* from here on everybody sees it done).  The harness stamps both.
 CancelBegin == /\ ~ctxMay /\ ctxMay' = TRUE
-               /\ UNCHANGED <<nJ, N, coe, deps, cls, sub, st, ctxDone, doomed, wait, ctxAtCall, res>>
+               /\ UNCHANGED <<nJ, jc, N, coe, deps, cls, sub, st, ctxDone, doomed, wait, ctxAtCall, res, c2May, c2Done>>
 
 Cancel == /\ ctxMay /\ ~ctxDone /\ ctxDone' = TRUE
           /\ doomed' = DoomedSet
-          /\ UNCHANGED <<nJ, N, coe, deps, cls, sub, st, ctxMay, wait, ctxAtCall, res>>
+          /\ UNCHANGED <<nJ, jc, N, coe, deps, cls, sub, st, ctxMay, wait, ctxAtCall, res, c2May, c2Done>>
 
 \* both at once (the grain of Sched.tla)
 CancelNow == /\ ~ctxMay /\ ctxMay' = TRUE /\ ctxDone' = TRUE
              /\ doomed' = DoomedSet
-             /\ UNCHANGED <<nJ, N, coe, deps, cls, sub, st, wait, ctxAtCall, res>>
+             /\ UNCHANGED <<nJ, jc, N, coe, deps, cls, sub, st, wait, ctxAtCall, res, c2May, c2Done>>
 
 \* a job body that cancels the context as its last act (one step in Sched.tla)
 EndCancel(j) == /\ st[j] = "running" /\ ~ctxMay
                 /\ st' = [st EXCEPT ![j] = "ok"] /\ ctxMay' = TRUE /\ ctxDone' = TRUE
                 /\ doomed' = DoomedSet
-                /\ UNCHANGED <<nJ, N, coe, deps, cls, sub, wait, ctxAtCall, res>>
+                /\ UNCHANGED <<nJ, jc, N, coe, deps, cls, sub, wait, ctxAtCall, res, c2May, c2Done>>
+
+\* the second context (only jobs enqueued with it are affected; Wait does not watch it)
+Cancel2Begin == /\ ~c2May /\ c2May' = TRUE
+                /\ UNCHANGED <<nJ, jc, N, coe, deps, cls, sub, st, ctxMay, ctxDone, doomed, c2Done, wait, ctxAtCall, res>>
+Cancel2 == /\ c2May /\ ~c2Done /\ c2Done' = TRUE
+           /\ doomed' = doomed \cup DoomedFor(2)
+           /\ UNCHANGED <<nJ, jc, N, coe, deps, cls, sub, st, ctxMay, ctxDone, c2May, wait, ctxAtCall, res>>
+Cancel2Now == /\ ~c2May /\ c2May' = TRUE /\ c2Done' = TRUE
+              /\ doomed' = doomed \cup DoomedFor(2)
+              /\ UNCHANGED <<nJ, jc, N, coe, deps, cls, sub, st, ctxMay, ctxDone, wait, ctxAtCall, res>>
 
 WaitCall == /\ wait = "open" /\ wait' = "called" /\ ctxAtCall' = ctxDone
-            /\ UNCHANGED <<nJ, N, coe, deps, cls, sub, st, ctxMay, ctxDone, doomed, res>>
+            /\ UNCHANGED <<nJ, jc, N, coe, deps, cls, sub, st, ctxMay, ctxDone, doomed, res, c2May, c2Done>>
 
 RECURSIVE TransOK(_)
 TransOK(j) == \A d \in DepSet(j) : st[d] = "ok" /\ TransOK(d)
@@ -97,14 +115,16 @@ TransOK(j) == \A d \in DepSet(j) : st[d] = "ok" /\ TransOK(d)
 Count(s, t) == Cardinality({i \in DOMAIN s : s[i] = t})
 FailedSet == {j \in sub : Failed(j)}
 
+AnyCtxMay == ctxMay \/ c2May
+MayOf(j) == IF jc[j] = 1 THEN ctxMay ELSE c2May     \* the context job j was enqueued with may be done
 \* the result r is one Wait may return in the current state
 WaitOK(r) ==
   \/ /\ r = <<"nil">>                      \* C07/C08: nil means everything ran and succeeded
      /\ \A j \in sub : st[j] = "ok"
      /\ ~ctxAtCall                          \* C07: and the context was not cancelled
-  \/ /\ r = <<"ctx">> /\ ctxMay            \* C09: the context's error
+  \/ /\ r = <<"ctx">> /\ AnyCtxMay         \* C09: a context's error (Wait's own, or the one a skipped job was enqueued with)
   \/ /\ ~coe /\ \E j \in FailedSet : r = <<"errs", <<ErrTokOf(j)>>>>   \* C07: a real failure
-  \/ /\ ~coe /\ ctxMay /\ r = <<"errs", <<CTXTOK>>>>                \* a job skipped by cancellation
+  \/ /\ ~coe /\ AnyCtxMay /\ r = <<"errs", <<CTXTOK>>>>             \* a job skipped by cancellation
   \/ /\ coe /\ r[1] = "errs"               \* C08
      /\ LET es == r[2]
             nonctx == SelectSeq(es, LAMBDA e : e # CTXTOK)
@@ -113,11 +133,11 @@ WaitOK(r) ==
            /\ \A j \in FailedSet :                                                  \* each exactly once
                  Count(nonctx, ErrTokOf(j)) = Cardinality({k \in FailedSet : ErrTokOf(k) = ErrTokOf(j)})
            /\ Len(es) - Len(nonctx) <= Cardinality({j \in sub : st[j] = "pending"})
-           /\ (Len(nonctx) < Len(es) => ctxMay)                              \* ctx errors only if cancelled
+           /\ (Len(nonctx) < Len(es) => AnyCtxMay)                           \* ctx errors only if cancelled
            /\ \A j \in sub : st[j] # "running"                               \* it waited for everything
-           /\ (~ctxMay => \A j \in sub : TransOK(j) => Ended(j))             \* everything runnable ran
+           /\ \A j \in sub : (TransOK(j) /\ ~MayOf(j)) => Ended(j)           \* everything runnable ran
 
 WaitEff(r) == /\ wait' = "returned" /\ res' = r
-              /\ UNCHANGED <<nJ, N, coe, deps, cls, sub, st, ctxMay, ctxDone, doomed, ctxAtCall>>
+              /\ UNCHANGED <<nJ, jc, N, coe, deps, cls, sub, st, ctxMay, ctxDone, doomed, ctxAtCall, c2May, c2Done>>
 WaitReturn(r) == wait = "called" /\ WaitOK(r) /\ WaitEff(r)
 =============================================================================
